@@ -192,8 +192,9 @@ pub mod vlib_report {
             }
             for s in o.samples {
                 let class = s.get("class").and_then(|c| c.as_str()).unwrap_or("").to_string();
-                let have = self.samples.iter().filter(|x| x.get("class").and_then(|c| c.as_str()) == Some(class.as_str())).count();
-                if have < 2 && self.samples.len() < 40 {
+                let fam = s.get("family").and_then(|c| c.as_str()).unwrap_or("").to_string();
+                let dup = self.samples.iter().any(|x| x.get("class").and_then(|c| c.as_str()) == Some(class.as_str()) && x.get("family").and_then(|c| c.as_str()) == Some(fam.as_str()));
+                if !dup && self.samples.len() < 48 {
                     self.samples.push(s);
                 }
             }
